@@ -940,6 +940,31 @@ func (app *BaseApp) txContext(ctx sdk.Ctx, txBytes []byte) (
 	return ctx.WithMultiStore(newMS), newMS
 }
 
+// simulateMultiStore is the multi-store given to the message handler of a simulated
+// transaction: every substore access goes through a cache layer over the root multi-store
+// that is never written back, while the CommitMultiStore methods a handler may need
+// (LoadLazyVersion behind ctx.PrevCtx) are still those of the root multi-store.
+type simulateMultiStore struct {
+	*rootMulti.Store
+	cache sdk.CacheMultiStore
+}
+
+func (s simulateMultiStore) GetStore(key sdk.StoreKey) sdk.Store     { return s.cache.GetStore(key) }
+func (s simulateMultiStore) GetKVStore(key sdk.StoreKey) sdk.KVStore { return s.cache.GetKVStore(key) }
+func (s simulateMultiStore) CacheMultiStore() sdk.CacheMultiStore    { return s.cache.CacheMultiStore() }
+func (s simulateMultiStore) CacheWrap() store.CacheWrap              { return s.cache.CacheWrap() }
+
+// simulateContext returns the context for the message of a simulated transaction: reads see
+// the current working state, writes stay in a discarded cache layer, and the context is
+// marked as a "previous" context so that the node-local object caches are bypassed.
+func simulateContext(ctx sdk.Context, ms sdk.MultiStore) sdk.Context {
+	root, ok := ms.(*rootMulti.Store)
+	if !ok {
+		return ctx.WithMultiStore(ms.CacheMultiStore()).SetPrevCtx(true)
+	}
+	return ctx.WithMultiStore(simulateMultiStore{Store: root, cache: root.CacheMultiStore()}).SetPrevCtx(true)
+}
+
 // txContext returns a new context based off of the provided context with
 // a cache wrapped multi-store.
 func (app *BaseApp) cacheTxContext(ctx sdk.Ctx, txBytes []byte) (
@@ -1066,6 +1091,11 @@ func (app *BaseApp) runTx(mode runTxMode, txBytes []byte, tx sdk.Tx) (result sdk
 	// Create a new context based off of the existing context with a cache wrapped
 	// multi-store in case message processing fails.
 	runMsgCtx, newMS := app.txContext(ctx, txBytes) // todo edit here!!!
+	if mode == runTxModeSimulate {
+		// A simulation must not touch the working state: run the message on a cache layer that
+		// is never written and keep it away from the node-local caches.
+		runMsgCtx = simulateContext(runMsgCtx, newMS)
+	}
 	result = app.runMsg(runMsgCtx, msgs, mode, signer)
 	result.GasWanted = gasWanted
 
